@@ -32,6 +32,10 @@ class SpecProbe(EventABC):
                 kw["specific_class"] = IndexMarket
             elif flt and flt.startswith("inst:"):
                 kw["specific_instance"] = self.simulator.name2market[flt[5:]]
+            elif flt and flt.startswith("both:"):        # class and instance requirement on one hook
+                _, cname, iname = flt.split(":")
+                kw["specific_class"] = {"Market": Market, "IndexMarket": IndexMarket}[cname]
+                kw["specific_instance"] = self.simulator.name2market[iname]
             # hook time lists hold plain ints in pams (they are dictionary keys): realise the solver's choice
             times = None if sp["times"] is None else [int(x) for x in sp["times"]]
             sp["times"] = times
@@ -90,7 +94,7 @@ class HookDispatch(Harness):
     bounds = {
         "quick": "one probe event with 1 hook (all 9 type/before-after kinds) x time list in {None, [], [t1], [t1,t2]} "
                  "symbolic, plus 2-hook combinations of the same kind (for market-step hooks every ordered pair of "
-                 "filters, and a 3-hook combination); market filters none/class/instance; 2 sessions "
+                 "filters, and a 3-hook combination); market filters none/class/instance/class-and-instance; 2 sessions "
                  "(2+1 steps), markets M0 + index market, 2 agents (scripted buy/sell/cancel)",
         "thorough": "adds [t1,t2,t3] lists and probe listed in the second session",
     }
@@ -105,7 +109,8 @@ class HookDispatch(Harness):
         out = []
         lens = (None, 0, 1, 2) if tier == "quick" else (None, 0, 1, 2, 3)
         for typ, before in HOOK_KINDS:
-            filters = [None] if typ != "market" else [None, "class:Market", "class:IndexMarket", "inst:M0", "inst:IDX"]
+            filters = [None] if typ != "market" else [None, "class:Market", "class:IndexMarket", "inst:M0", "inst:IDX",
+                                                      "both:IndexMarket:M0", "both:IndexMarket:IDX", "both:Market:IDX"]
             for flt in filters:
                 for n in lens:
                     out.append({"hooks": [{"type": typ, "before": before, "n": n, "filter": flt}], "where": 0})
@@ -227,6 +232,10 @@ class HookDispatch(Harness):
                         ok_f = isinstance(market, IndexMarket)
                     elif fl and fl.startswith("inst:"):
                         ok_f = market is sim.name2market[fl[5:]]
+                    elif fl and fl.startswith("both:"):
+                        _, cname, iname = fl.split(":")
+                        ok_f = market is sim.name2market[iname] and \
+                            isinstance(market, {"Market": Market, "IndexMarket": IndexMarket}[cname])
                     else:
                         ok_f = True
                     if not ok_f:
